@@ -775,3 +775,118 @@ def _mux(rng, nx, ny, sym):
     inp = OrderedDict((s["name"] + "_mesh_point_forces", rng.normal(size=s["mesh"].shape)) for s in ss)
     return dict(factory=lambda: MuxSurfaceForces(surfaces=ss), ints=[1, len(ss)] + sizes, consts=[], inputs=inp,
                 outputs=[MPhysVariables.Aerodynamics.Surface.LOADS])
+
+
+# ---------------------------------------------------------------------------------------
+# beam FEM
+# ---------------------------------------------------------------------------------------
+def _sec(rng, ne):
+    return dict(A=rng.uniform(2e-3, 5e-2, size=ne), Iy=rng.uniform(1e-5, 5e-4, size=ne), Iz=rng.uniform(1e-5, 5e-4, size=ne),
+                J=rng.uniform(2e-5, 1e-3, size=ne))
+
+
+@spec("Length")
+def _length(rng, nx, ny, sym):
+    from openaerostruct.structures.length import Length
+    s = _surf(rng, nx, ny, sym)
+    return dict(factory=lambda: Length(surface=s), ints=[ny], consts=[], inputs=OrderedDict(nodes=_nodes(rng, s)), outputs=["element_lengths"])
+
+
+@spec("Transform")
+def _transform(rng, nx, ny, sym):
+    from openaerostruct.structures.transform import Transform
+    s = _surf(rng, nx, ny, sym)
+    return dict(factory=lambda: Transform(surface=s), ints=[ny], consts=[], inputs=OrderedDict(nodes=_nodes(rng, s)), outputs=["transform"])
+
+
+@spec("LocalStiff")
+def _local_stiff(rng, nx, ny, sym):
+    from openaerostruct.structures.local_stiff import LocalStiff
+    s = _surf(rng, nx, ny, sym)
+    sec = _sec(rng, ny - 1)
+    inp = OrderedDict(A=sec["A"], Iy=sec["Iy"], Iz=sec["Iz"], J=sec["J"], element_lengths=rng.uniform(0.3, 2.5, size=ny - 1))
+    return dict(factory=lambda: LocalStiff(surface=s), ints=[ny], consts=[s["E"], s["G"]], inputs=inp, outputs=["local_stiff"])
+
+
+@spec("LocalStiffPermuted")
+def _local_stiff_permuted(rng, nx, ny, sym):
+    from openaerostruct.structures.local_stiff_permuted import LocalStiffPermuted
+    s = _surf(rng, nx, ny, sym)
+    return dict(factory=lambda: LocalStiffPermuted(surface=s), ints=[ny], consts=[],
+                inputs=OrderedDict(local_stiff=rng.normal(size=(ny - 1, 12, 12))), outputs=["local_stiff_permuted"])
+
+
+@spec("LocalStiffTransformed")
+def _local_stiff_transformed(rng, nx, ny, sym):
+    from openaerostruct.structures.local_stiff_transformed import LocalStiffTransformed
+    s = _surf(rng, nx, ny, sym)
+    return dict(factory=lambda: LocalStiffTransformed(surface=s), ints=[ny], consts=[],
+                inputs=OrderedDict(local_stiff_permuted=rng.normal(size=(ny - 1, 12, 12)), transform=rng.normal(size=(ny - 1, 12, 12))),
+                outputs=["local_stiff_transformed"])
+
+
+@spec("CreateRHS")
+def _create_rhs(rng, nx, ny, sym):
+    from openaerostruct.structures.create_rhs import CreateRHS
+    s = _surf(rng, nx, ny, sym)
+    loads = rng.normal(size=(ny, 6)) * 1e3
+    loads[np.abs(loads) < 1e-3] = 1.0      # keep a decade away from the 1e-6 N zeroing threshold
+    zero_branch = bool(rng.uniform() < 0.3)
+    if zero_branch:
+        loads[rng.integers(ny), rng.integers(6)] = 1e-9      # exercise the zeroing branch well inside it
+    # the constant unit Jacobian is exempt at zeroed entries (documented non-smooth point): values only there
+    return dict(factory=lambda: CreateRHS(surface=s), ints=[ny], consts=[], inputs=OrderedDict(total_loads=loads), outputs=["forces"],
+                jac=not zero_branch)
+
+
+def _real_kloc(rng, s, ny):
+    """a realistic local_stiff_transformed from the real AssembleKGroup"""
+    from openaerostruct.structures.assemble_k_group import AssembleKGroup
+    from .core import comp_problem
+    sec = _sec(rng, ny - 1)
+    p = comp_problem(AssembleKGroup(surface=s), dict(nodes=_nodes(rng, s), **sec))
+    return np.array(p.get_val("local_stiff_transformed")), sec
+
+
+@spec("FEMSolve", jac=False)
+def _fem_solve(rng, nx, ny, sym):
+    from openaerostruct.structures.fem import FEM
+    s = _surf(rng, nx, ny, sym)
+    kloc, sec = _real_kloc(rng, s, ny)
+    forces = np.concatenate([rng.normal(size=6 * ny) * 1e3, np.zeros(6)])
+    return dict(factory=lambda: FEM(surface=s), ints=[ny, int(sym)], consts=[],
+                inputs=OrderedDict(local_stiff_transformed=kloc, forces=forces), outputs=["disp_aug"], vtol=1e-6, vatol=1e-12)
+
+
+@spec("ConvertVelocity", sym_opts=(False,))
+def _convert_velocity(rng, nx, ny, sym):
+    from openaerostruct.aerodynamics.convert_velocity import ConvertVelocity
+    ss = _vlm_surfs(rng, nx, ny, sym, ns=1)
+    N = (ss[0]["mesh"].shape[0] - 1) * (ss[0]["mesh"].shape[1] - 1)
+    rot = bool(rng.integers(2))
+    inp = OrderedDict(alpha=np.array([rng.uniform(-15, 15)]), beta=np.array([rng.uniform(-15, 15)]), v=np.array([rng.uniform(20, 250)]))
+    if rot:
+        inp["rotational_velocities"] = rng.normal(size=(N, 3))
+    return dict(factory=lambda: ConvertVelocity(surfaces=ss, rotational=rot), ints=[N, int(rot)], consts=[], inputs=inp,
+                outputs=["freestream_velocities"], branch="rotational" if rot else "plain")
+
+
+@spec("RotationalVelocity", sym_opts=(False,))
+def _rotational_velocity(rng, nx, ny, sym):
+    from openaerostruct.aerodynamics.rotational_velocity import RotationalVelocity
+    ss = _vlm_surfs(rng, nx, ny, sym, ns=1)
+    N = (ss[0]["mesh"].shape[0] - 1) * (ss[0]["mesh"].shape[1] - 1)
+    return dict(factory=lambda: RotationalVelocity(surfaces=ss), ints=[N], consts=[],
+                inputs=OrderedDict(cg=rng.normal(size=3), omega=rng.normal(size=3) * 0.3, coll_pts=rng.normal(size=(N, 3)) * 3),
+                outputs=["rotational_velocities"])
+
+
+@spec("PanelForces", sym_opts=(False,))
+def _panel_forces(rng, nx, ny, sym):
+    from openaerostruct.aerodynamics.panel_forces import PanelForces
+    ss = _vlm_surfs(rng, nx, ny, sym, ns=int(rng.integers(1, 3)))
+    N = sum((s["mesh"].shape[0] - 1) * (s["mesh"].shape[1] - 1) for s in ss)
+    return dict(factory=lambda: PanelForces(surfaces=ss), ints=[N], consts=[],
+                inputs=OrderedDict(rho=np.array([rng.uniform(0.3, 1.2)]), horseshoe_circulations=rng.normal(size=N) * 10,
+                                   force_pts_velocities=rng.normal(size=(N, 3)) * 50, bound_vecs=rng.normal(size=(N, 3))),
+                outputs=["panel_forces"])
